@@ -17,6 +17,18 @@ package nebula
 // decision itself. Both are compared with a decision table transcribed from the statement, evaluated over a boring
 // reference model (flags, times, certificate facts the harness itself configured). Only the implications the statement
 // makes are asserted.
+//
+// Besides the single-step events the menu carries COMPOUND events that sustain one-directional traffic on a tunnel for k
+// consecutive checks (k check intervals of virtual time, k around inactivity_timeout / check interval):
+//   rx×k:X  = k times { advance one check interval; inbound packet on X; check X }            (we only receive)
+//   tx×k:X  = k times { advance one check interval; outbound packet on X; check X; if that check wrote a test probe,
+//                       the peer's test reply arrives (the only thing we receive) }            (we only send, peer alive)
+// A compound event is one BFS step, so "one-directional traffic up to / beyond the inactivity timeout, then a quiet
+// check" is three steps deep and within the quick box (also after a toggle, reload, counter or traffic event).
+// Compound events are offered in the first depth-2 positions of a history (the later ones cannot be followed by the
+// clock advance + quiet check any more). Every inner check is judged like a single check event. One further start
+// configuration is an existing one followed by a sustained receive-only prefix, so the full depth is also explored
+// BEHIND a long one-way history.
 
 import (
 	"fmt"
@@ -45,7 +57,17 @@ const (
 	c30PendingInterval = 10 * time.Second
 	c30Timeout         = 20 * time.Second // tunnels.inactivity_timeout
 	c30ShortLife       = 12 * time.Second // lifetime (after Epoch) of the short-lived peer certificate
+	c30KT              = int(c30Timeout / c30CheckInterval) // checks that span exactly the inactivity timeout
 )
+
+// compound-event lengths and scope, set by the tier (quick: the current primary, k = timeout/interval; thorough: both
+// tunnels, k-1 / k / k+1)
+var c30SustainK = []int{c30KT}
+var c30SustainAll = false
+
+// compound events are offered in the first c30SustainPos positions of a history (= depth-2: the quiet check that shows
+// what the sustained traffic did to the idle clock needs two more steps, a clock advance and the check)
+var c30SustainPos = 2
 
 // ---------------------------------------------------------------------------------------------------------------
 // material, minted once per process
@@ -140,6 +162,7 @@ type c30Seed struct {
 	p256         bool // CA bundle also carries the P256 CA; twin blocklisting is in the menu
 	localRenew   string
 	localV2only  string
+	prefix       []c30Ev // scripted legitimate prefix (ordinary events) applied before the explored history starts
 }
 
 var c30Seeds = []c30Seed{
@@ -147,6 +170,9 @@ var c30Seeds = []c30Seed{
 	{name: "hi-short-idle", local: "v2a", tunMy: [2]string{"v2a", "v2a"}, tunPeer: [2]string{"hiShort", "hiLong"}, disc: false, drop: true, localRenew: "v2b"},
 	{name: "lo-p256", local: "v2a", tunMy: [2]string{"v2a", "v2a"}, tunPeer: [2]string{"loP256", "loShortP256"}, disc: true, drop: true, p256: true, localRenew: "v2b"},
 	{name: "hi-v1v2", local: "v1a+v2a", tunMy: [2]string{"v1a", "v2a"}, tunPeer: [2]string{"hiV1", "hiLong"}, disc: true, drop: false, localRenew: "v1b+v2b", localV2only: "v2a"},
+	// behind a sustained receive-only history (timeout / check interval checks) with drop_inactive on
+	{name: "lo-p256/rx-sustained", local: "v2a", tunMy: [2]string{"v2a", "v2a"}, tunPeer: [2]string{"loP256", "loShortP256"}, disc: true, drop: true, p256: true, localRenew: "v2b",
+		prefix: []c30Ev{{K: "rx", X: 0, N: c30KT}}},
 }
 
 // ---------------------------------------------------------------------------------------------------------------
@@ -363,9 +389,10 @@ func (w *c30World) reload(tb testing.TB) {
 // events
 
 type c30Ev struct {
-	K string // in out check adv advT-1 advT disc drop ca local ctr
+	K string // in out check adv advT-1 advT disc drop ca local ctr | compound: rx tx
 	X int    // tunnel (0 = the initial primary P, 1 = the initial non-primary N)
 	V string
+	N int // compound events: number of checks
 }
 
 func (e c30Ev) String() string {
@@ -374,13 +401,15 @@ func (e c30Ev) String() string {
 		return fmt.Sprintf("%s:%s", e.K, [2]string{"P", "N"}[e.X])
 	case "ctr":
 		return fmt.Sprintf("ctr:%s=%s", [2]string{"P", "N"}[e.X], e.V)
+	case "rx", "tx":
+		return fmt.Sprintf("%s×%d:%s", e.K, e.N, [2]string{"P", "N"}[e.X])
 	case "ca", "local", "seed":
 		return e.K + ":" + e.V
 	}
 	return e.K
 }
 
-func (w *c30World) menu() []c30Ev {
+func (w *c30World) menu(pos int) []c30Ev {
 	var evs []c30Ev
 	for x := 0; x < 2; x++ {
 		if !w.present(x) {
@@ -405,6 +434,13 @@ func (w *c30World) menu() []c30Ev {
 		return []c30Ev{{K: "check", X: 0}}
 	}
 	evs = append(evs, c30Ev{K: "adv"})
+	for x := 0; x < 2; x++ {
+		if pos < c30SustainPos && w.present(x) && (c30SustainAll || w.primary(x)) {
+			for _, k := range c30SustainK {
+				evs = append(evs, c30Ev{K: "rx", X: x, N: k}, c30Ev{K: "tx", X: x, N: k})
+			}
+		}
+	}
 	for x := 0; x < 2; x++ {
 		if w.present(x) && w.primary(x) && w.md.tun[x].seenValid {
 			if t := w.md.tun[x].lastSeen.Add(c30Timeout - time.Second); t.After(w.now) {
@@ -452,6 +488,20 @@ type c30Expect struct {
 	rehandshake  string // non-empty: a re-handshake must be pending after the check (reason)
 	blocklisted  bool
 	invalid      bool
+	drop         bool          // tunnels.drop_inactive as configured
+	traffic      string        // traffic flags since the previous check: "", "in", "out", "in+out"
+	idleFor      string // true idle time: since the last packet in either direction
+}
+
+// whyNotIdle names the clause of "closed only when drop_inactive is on and idle >= the inactivity timeout" that fails.
+func (e c30Expect) whyNotIdle() string {
+	switch {
+	case !e.drop:
+		return "drop_inactive is off"
+	case e.traffic != "":
+		return "traffic since the last check (" + e.traffic + ")"
+	}
+	return "idle for less than the inactivity timeout"
 }
 
 func (w *c30World) expect(x int, primary bool) c30Expect {
@@ -465,6 +515,8 @@ func (w *c30World) expect(x int, primary bool) c30Expect {
 	e.alive = t.in
 	e.deadProbe = t.probe && !t.in
 	idle := primary && !t.in && !t.out
+	e.drop, e.idleFor = w.md.drop, w.now.Sub(t.lastTraffic).String()
+	e.traffic = strings.Join(map[[2]bool][]string{{true, false}: {"in"}, {false, true}: {"out"}, {true, true}: {"in", "out"}}[[2]bool{t.in, t.out}], "+")
 	e.idleMay = idle && w.md.drop && w.now.Sub(t.lastTraffic) >= c30Timeout
 	e.idleMust = idle && w.md.drop && t.seenValid && w.now.Sub(t.lastSeen) >= c30Timeout
 	if primary && t.in && !e.certClose && !e.exhausted {
@@ -486,9 +538,25 @@ func (w *c30World) expect(x int, primary bool) c30Expect {
 	return e
 }
 
-// apply executes one event on the real objects and the model; check events are judged against the table.
-func (w *c30World) apply(tb testing.TB, c *mc.Check, ev c30Ev, hist func() []string, judge bool) {
+// apply executes one event on the real objects and the model; check events are judged against the table. decide != nil
+// (twin world): the event's final check is not executed, decide(x) is called in its place.
+func (w *c30World) apply(tb testing.TB, c *mc.Check, ev c30Ev, hist func() []string, judge bool, decide func(x int)) {
 	switch ev.K {
+	case "rx", "tx":
+		// compound: one-directional traffic sustained over ev.N consecutive checks; ends early once the tunnel is gone
+		for i := 0; i < ev.N && w.present(ev.X); i++ {
+			w.apply(tb, c, c30Ev{K: "adv"}, hist, false, nil)
+			w.apply(tb, c, c30Ev{K: map[string]string{"rx": "in", "tx": "out"}[ev.K], X: ev.X}, hist, false, nil)
+			if decide != nil && i == ev.N-1 {
+				decide(ev.X)
+				return
+			}
+			o := w.check(c, ev.X, hist, judge)
+			if ev.K == "tx" && o.testSent && w.present(ev.X) {
+				// the peer is alive: it answers the probe, which is the only thing we receive
+				w.apply(tb, c, c30Ev{K: "in", X: ev.X}, hist, false, nil)
+			}
+		}
 	case "in":
 		w.cm.In(w.tun[ev.X])
 		w.md.tun[ev.X].in, w.md.tun[ev.X].lastTraffic = true, w.now
@@ -543,15 +611,18 @@ func (w *c30World) apply(tb testing.TB, c *mc.Check, ev c30Ev, hist func() []str
 			w.md.tun[ev.X].ctr = 2
 		}
 	case "check":
+		if decide != nil {
+			decide(ev.X)
+			return
+		}
 		w.check(c, ev.X, hist, judge)
 	default:
 		tb.Fatalf("c30: unknown event %v", ev)
 	}
 }
 
-func (w *c30World) check(c *mc.Check, x int, hist func() []string, judge bool) {
+func (w *c30World) check(c *mc.Check, x int, hist func() []string, judge bool) (o c30Obs) {
 	h := w.tun[x]
-	var o c30Obs
 	o.presentBefore, o.primaryBefore = w.present(x), w.primary(x)
 	o.hsBefore = w.hsm.QueryVpnAddr(w.peer) != nil
 	w.conn.take()
@@ -578,7 +649,7 @@ func (w *c30World) check(c *mc.Check, x int, hist func() []string, judge bool) {
 		if o.presentAfter || o.closeSent || o.testSent {
 			c.Violation("check of a vanished tunnel has effects", m{"history": hist(), "obs": fmt.Sprintf("%+v", o)})
 		}
-		return
+		return o
 	}
 	role := "non-primary"
 	if o.primaryBefore {
@@ -602,6 +673,7 @@ func (w *c30World) check(c *mc.Check, x int, hist func() []string, judge bool) {
 		// the probe itself is outbound traffic on this tunnel
 		t.out, t.lastTraffic = true, w.now
 	}
+	return o
 }
 
 func c30Judge(c *mc.Check, role string, e c30Expect, o c30Obs, hist func() []string) {
@@ -659,7 +731,7 @@ func c30Judge(c *mc.Check, role string, e c30Expect, o c30Obs, hist func() []str
 		// closed (peer notified) with no certificate/counter reason: only inactivity can justify it
 		c.Add("row_idle_close_observed", 1)
 		if !e.idleMay {
-			c.Violation("primary tunnel closed for inactivity outside the policy (drop_inactive off, traffic seen, or idle < timeout)", det())
+			c.Violation("primary tunnel closed for inactivity outside the policy: "+e.whyNotIdle(), det())
 		}
 	}
 	if e.rehandshake != "" && o.presentAfter {
@@ -731,6 +803,12 @@ func TestVerifC30(t *testing.T) {
 	depth := mc.Pick(c, 4, 6)
 	c.Set("bfs_depth", depth)
 	c.Set("seed_configurations", len(c30Seeds))
+	if c.Thorough() {
+		c30SustainK, c30SustainAll = []int{c30KT - 1, c30KT, c30KT + 1}, true
+	}
+	c30SustainPos = depth - 2
+	c.Set("compound_events", fmt.Sprintf("rx×k / tx×k (k consecutive checks, one check interval apart, with only inbound / only outbound traffic; tx: the peer answers test probes) for k in %v on %s, offered in the first %d positions of a history; inactivity timeout = %d check intervals",
+		c30SustainK, map[bool]string{false: "the current primary tunnel", true: "both tunnels"}[c30SustainAll], c30SustainPos, c30KT))
 	c.Assume("A check is one call of the real doTrafficCheck for one tunnel at a harness-chosen instant; the timer wheel that schedules the calls is not part of the statement (C33 covers it).")
 	c.Assume("'Closed' is read as closeTunnel (removed + CloseTunnel written), 'dropped' as removed; when several clauses apply (blocklisted and exhausted) only removal is demanded.")
 	c.Assume("Idle time for 'closed only when idle >= timeout' is the true idle time (since the last traffic flag); the converse 'idle primary past the timeout is removed when drop_inactive is on' is asserted with idle measured from the last check that observed traffic (the implementation's own, shorter, measure) — 'at least the timeout' is read as the boundary of the policy.")
@@ -755,23 +833,35 @@ func TestVerifC30(t *testing.T) {
 		seed, hist := seedByName[full[0].V], full[1:]
 		labels := func() []string {
 			out := []string{"seed=" + seed.name}
+			for _, e := range seed.prefix {
+				out = append(out, "prefix:"+e.String())
+			}
 			for _, e := range hist {
 				out = append(out, e.String())
 			}
 			return out
 		}
 		w := c30Build(t, seed)
-		for i, ev := range hist {
-			w.apply(t, c, ev, labels, i == len(hist)-1)
+		for _, ev := range seed.prefix {
+			w.apply(t, c, ev, labels, len(hist) == 0, nil) // judged once, as the history that consists of the prefix alone
 		}
-		if n := len(hist); n > 0 && hist[n-1].K == "check" {
-			// twin world: same prefix, then the real makeTrafficDecision is called directly to observe the decision
+		for i, ev := range hist {
+			w.apply(t, c, ev, labels, i == len(hist)-1, nil)
+		}
+		if n := len(hist); n > 0 && (hist[n-1].K == "check" || hist[n-1].K == "rx" || hist[n-1].K == "tx") {
+			// twin world: same history, but in place of its final check the real makeTrafficDecision is called directly to
+			// observe the decision itself
 			w1 := c30Build(t, seed)
-			for _, ev := range hist[:n-1] {
-				w1.apply(t, c, ev, labels, false)
+			for _, ev := range seed.prefix {
+				w1.apply(t, c, ev, labels, false, nil)
 			}
-			x := hist[n-1].X
-			if w1.present(x) {
+			for _, ev := range hist[:n-1] {
+				w1.apply(t, c, ev, labels, false, nil)
+			}
+			w1.apply(t, c, hist[n-1], labels, false, func(x int) {
+				if !w1.present(x) {
+					return
+				}
 				prim := w1.primary(x)
 				exp := w1.expect(x, prim)
 				dec, hi, _ := w1.cm.makeTrafficDecision(w1.tun[x].localIndexId, w1.now)
@@ -786,9 +876,9 @@ func TestVerifC30(t *testing.T) {
 				decByRole[role+"/"+name]++
 				decMu.Unlock()
 				c30JudgeDecision(c, role, exp, dec, hi == w1.tun[x], labels)
-			}
+			})
 		}
-		return mc.Hash(w.key()), w.menu()
+		return mc.Hash(w.key()), w.menu(len(hist))
 	}
 	// quick: fixed depth, no time stop (the box is sized for a few seconds on an idle 16-core machine, and the vacuity
 	// guards below need all of it); thorough: deeper, whole levels until the soft budget runs out.
@@ -861,7 +951,7 @@ func c30JudgeDecision(c *mc.Check, role string, e c30Expect, dec trafficDecision
 		c.Violation("decision keeps an idle primary tunnel past the inactivity timeout with drop_inactive on", det())
 	}
 	if dec == closeTunnel && role == "primary" && !e.idleMay {
-		c.Violation("decision closeTunnel for inactivity outside the policy (drop_inactive off, traffic seen, or idle < timeout)", det())
+		c.Violation("decision closeTunnel for inactivity outside the policy: "+e.whyNotIdle(), det())
 	}
 	if e.rehandshake != "" && dec != tryRehandshake {
 		c.Violation("decision is not tryRehandshake: "+e.rehandshake, det())
